@@ -1,6 +1,7 @@
 package main
 
 import (
+	"context"
 	"fmt"
 	"os/exec"
 	"sort"
@@ -179,4 +180,57 @@ func runBatch(bin string, args []string, script string) string {
 		return fmt.Sprintf("(error \"%v\")", err)
 	}
 	return string(out)
+}
+
+// secondOpinion runs a stand-alone obligation script through fresh solver processes (z3 with the bit-blasting tactic,
+// z3 5.x, cvc5) with six times the per-query budget, in parallel; returns the name of the first that answers unsat.
+func secondOpinion(script string, timeoutMs int) string {
+	budget := 6 * timeoutMs
+	if budget < 60000 {
+		budget = 60000
+	}
+	type cand struct {
+		name string
+		bin  string
+		args []string
+		text string
+	}
+	tactic := strings.Replace(script, "(check-sat)\n", "(check-sat-using (then simplify solve-eqs bit-blast sat))\n", 1)
+	cands := []cand{
+		{"z3 bit-blast", "z3", []string{"-in", fmt.Sprintf("-t:%d", budget)}, tactic},
+		{"z3-new", "z3-new", []string{"-in", fmt.Sprintf("-t:%d", budget)}, script},
+		{"cvc5", "cvc5", []string{"--lang=smt2", fmt.Sprintf("--tlimit=%d", budget)}, "(set-logic ALL)\n" + script},
+	}
+	res := make(chan string, len(cands))
+	for _, c := range cands {
+		go func(c cand) {
+			ctx, cancel := context.WithTimeout(context.Background(), time.Duration(budget+30000)*time.Millisecond)
+			defer cancel()
+			cmd := exec.CommandContext(ctx, c.bin, c.args...)
+			cmd.Stdin = strings.NewReader(c.text)
+			out, _ := cmd.CombinedOutput()
+			verdict := ""
+			for _, l := range strings.Split(string(out), "\n") {
+				l = strings.TrimSpace(l)
+				if strings.HasPrefix(l, "(error") {
+					verdict = "error"
+					break
+				}
+				if l == "unsat" || l == "sat" || l == "unknown" || l == "timeout" {
+					verdict = l
+				}
+			}
+			if verdict == "unsat" {
+				res <- c.name
+			} else {
+				res <- ""
+			}
+		}(c)
+	}
+	for range cands {
+		if who := <-res; who != "" {
+			return who
+		}
+	}
+	return ""
 }
